@@ -155,7 +155,7 @@ for _p in patterns(3):
     ob('registry/class3/' + _p, marks=['resolved-after-register'], budget=(60, 200),
        bounds='as registry/class with the three-level hierarchy A > B > C, sequence %s' % _p)(_mk_class(_p, True))
 for _p in [q for q in patterns(5) if q.count('R') <= 3]:
-    ob('registry/class/' + _p, marks=['resolved-after-register'], budget=(60, 500), thorough_only=True,
+    ob('registry/class/' + _p, marks=['resolved-after-register'], budget=(60, 500), thorough_only=True, exhaustive=(True, False),
        bounds='as registry/class, sequence %s' % _p)(_mk_class(_p, False))
 
 
@@ -173,6 +173,7 @@ def _mk_criteria(pattern, first_kind):
 for _p in patterns(3) + patterns(4):
     for _k in KINDS:
         ob('registry/criteria/%s/%s' % (_p, _k), marks=['resolved-after-register'], budget=(90, 400), thorough_only=len(_p) > 3,
+           exhaustive=(True, len(_p) <= 3),
            bounds='registration criteria picked from {class, attr="marker", metaclass, detector, two classes, class+attr, '
                   'classes+metaclass, attr+metaclass (combined criteria must hold together), a detector that raises ValueError for some '
                   'classes (= no match)} (the first registration is %s); '
